@@ -246,10 +246,11 @@ impl __Cmp {
                 for bits in 1..4u8 { __MODEL.with(|m| m.set(bits)); models.push(__grid(mdv, 2)); }
                 __MODEL.with(|m| m.set(0));
             }
-            let pf = __SPEC_PF[k % ns];
-            let tag = if pf && obs[k] == models[0][k] { Some("c06-debugtuple-pretty-flags") }
+            // the models deviate from the reference only where their defect predicts it (pretty mode + further
+            // flags reaching a positional field; a raw-identifier name), so text equality is the whole signature
+            let tag = if obs[k] == models[0][k] { Some("c06-debugtuple-pretty-flags") }
                 else if obs[k] == models[1][k] { Some("c06-raw-ident-name") }
-                else if pf && obs[k] == models[2][k] { Some("c06-debugtuple-pretty-flags+raw-ident-name") }
+                else if obs[k] == models[2][k] { Some("c06-debugtuple-pretty-flags+raw-ident-name") }
                 else { None };
             match tag {
                 Some(t) => { if !self.known.iter().any(|x| x.0 == t) { self.known.push((t, format!("[{t}] {what}"), exp[k].clone(), obs[k].clone())); } }
@@ -568,6 +569,9 @@ impl Ty {
             _ => None,
         }
     }
+    fn uses_param(&self) -> bool {
+        matches!(self, Ty::Param(_) | Ty::VecParam(_) | Ty::RefParam(_) | Ty::Phantom(_))
+    }
 }
 
 impl TypeDef {
@@ -758,7 +762,9 @@ impl TypeDef {
 
 const TYPE_NAMES: [&str; 10] = ["Foo", "Bar", "FooBar", "Leaf", "Node", "Wrapper", "r#type", "r#fn", "r#match", "r#Raw"];
 const VARIANT_NAMES: [&str; 9] = ["A", "Bc", "Unit", "Tup", "Named", "r#loop", "r#while", "r#Var", "Zz"];
-const FIELD_NAMES: [&str; 9] = ["a", "b", "x", "name", "foo_bar", "_x", "r#in", "r#type", "r#y"];
+// disjoint from the type names: the expansion binds fields by name (`let r#type = &self.r#type;`), which cannot
+// shadow a tuple/unit struct of the same name in scope (a scope-hygiene matter that belongs to C15, not C06)
+const FIELD_NAMES: [&str; 9] = ["a", "b", "x", "name", "foo_bar", "_x", "r#in", "r#struct", "r#y"];
 
 struct Cx {
     types: Vec<TypeDef>,
@@ -863,7 +869,12 @@ fn gen_field_fmt(d: &mut Dice, v: &Variant, me: usize, is_enum: bool, cx: &mut C
             continue;
         }
         any_ph = true;
-        let ti = if d.chance(65) { me } else { d.pick(v.fields.len()) };
+        let mut ti = if d.chance(65) { me } else { d.pick(v.fields.len()) };
+        if ti != me && v.fields[ti].ty.uses_param() {
+            // excluded by construction: a format on one field that mentions *another* field of a type-parameter
+            // type gets no bound from the derive (bound inference is C04's subject)
+            ti = me;
+        }
         let b = bind(ti);
         let raw = b.starts_with("r#");
         let leaf = v.fields[ti].ty.leaf();
@@ -1050,7 +1061,12 @@ fn gen_attrs(d: &mut Dice, v: &mut Variant, is_enum: bool, cx: &mut Cx) {
     }
     let all_skipped = d.chance(6);
     for i in 0..v.fields.len() {
-        let choice = if all_skipped { 1 } else { d.weighted(&[55, 25, 20]) };
+        let mut choice = if all_skipped { 1 } else { d.weighted(&[55, 25, 20]) };
+        if choice == 2 && v.fields[i].ty.uses_param() && v.fields[i].name.starts_with("r#") {
+            // excluded by construction: no bound is inferred for a raw-named field passed as a format argument
+            // (`#[debug("{:?}", r#struct)] r#struct: T`) — bound inference is C04's subject
+            choice = 0;
+        }
         match choice {
             0 => {}
             1 => {
@@ -1083,7 +1099,7 @@ fn gen_attrs(d: &mut Dice, v: &mut Variant, is_enum: bool, cx: &mut Cx) {
 
 fn gen_type(d: &mut Dice, depth: usize, cx: &mut Cx) -> usize {
     // shape: 0 unit struct, 1 `S()`, 2 `S{}`, 3 tuple struct, 4 named struct, 5 enum
-    let shape = if depth == 0 { d.weighted(&[3, 2, 2, 31, 30, 32]) } else { 3 + d.weighted(&[4, 4, 3]) };
+    let shape = if depth == 0 { d.weighted(&[3, 2, 2, 31, 30, 32]) } else { d.weighted(&[1, 1, 1, 9, 9, 7]) };
     let with_attrs = d.chance(62);
     let gen = if shape >= 3 && d.chance(30) { gen_generics(d) } else { Gen::default() };
     let mut base = TYPE_NAMES[d.weighted(&[4, 3, 2, 2, 2, 2, 2, 1, 1, 1])].to_string();
@@ -1130,6 +1146,20 @@ fn gen_type(d: &mut Dice, depth: usize, cx: &mut Cx) -> usize {
         let mut v = gen_variant(d, depth, cx, &gen, String::new(), kind, nf, false);
         use_generics(d, &gen, &mut v);
         variants.push(v);
+    }
+    // excluded by construction: a bare `T` field next to a `&'a T` field — the per-field-type bound `&'a T: Debug`
+    // then shadows the blanket impl for `&'_ T` and the expansion does not borrow-check (C01/C04's subject)
+    for k in 0..gen.tps.len() {
+        let has_ref = variants.iter().any(|v| v.fields.iter().any(|f| matches!(f.ty, Ty::RefParam(x) if x == k)));
+        if has_ref {
+            for v in variants.iter_mut() {
+                for f in v.fields.iter_mut() {
+                    if matches!(f.ty, Ty::Param(x) if x == k) {
+                        f.ty = Ty::VecParam(k);
+                    }
+                }
+            }
+        }
     }
     if with_attrs {
         for v in variants.iter_mut() {
@@ -1228,7 +1258,7 @@ fn build(d: &mut Dice) -> GenCase {
     labels.push(if any_attr { "with_debug_attributes".into() } else { "attribute_less".into() });
     let has_fields = cx.types.iter().any(|t| t.variants.iter().any(|v| !v.fields.is_empty()));
     let mut c = GenCase::new(body);
-    c.control = Some(control);
+    c.control = if std::env::var("C06_NOCONTROL").is_ok() { None } else { Some(control) };
     // every case is evaluated under the whole grid (flags, nestings); the trivial ones are the field-less,
     // attribute-less, plainly named types for which all configurations print just the name
     c.nontrivial = has_fields || labels.iter().any(|l| l == "raw_identifier");
@@ -1322,7 +1352,7 @@ pub fn prop() -> DiceProp {
             ("nesting_depth>=1".into(), 0.25),
             ("nesting_depth>=2".into(), 0.04),
             ("attribute_less".into(), 0.2),
-            ("unit_struct".into(), 0.01),
+            ("unit_struct".into(), 0.005),
             ("empty_parens".into(), 0.02),
             ("empty_braces".into(), 0.02),
         ],
